@@ -50,7 +50,7 @@ impl<B: Buffer> Editor<B> {
 //@ /// representation invariant: additionally the cursor is inside the line
 //@ pub open spec fn wf(&self) -> bool { self.wf_mem() && self.cur() <= self.line().len() }
     pub fn new(buffer: B) -> Self {
-//@ ensures r.wf(), r.line() == Seq::<char>::empty(), r.cur() == 0, r.cap() == buffer.bytes().len(),   // [C05]
+//@ ensures r.wf(), r.line() == Seq::<char>::empty(), r.line_bytes() == Seq::<u8>::empty(), r.cur() == 0, r.cap() == buffer.bytes().len(),   // [C05]
 //@ ---
 //@ proof { assert(buffer.bytes().subrange(0, 0) =~= Seq::<u8>::empty()); }
         Self {
@@ -207,7 +207,8 @@ impl<B: Buffer> Editor<B> {
 
     pub fn clear(&mut self) {
 //@ requires old(self).wf_mem(),
-//@ ensures final(self).wf(), final(self).line() == Seq::<char>::empty(), final(self).cur() == 0, final(self).cap() == old(self).cap(),   // [C05,C01]
+//@ ensures final(self).wf(), final(self).line() == Seq::<char>::empty(), final(self).line_bytes() == Seq::<u8>::empty(),
+//@     final(self).cur() == 0, final(self).cap() == old(self).cap(),   // [C05,C01]
         self.valid = 0;
         self.cursor = 0;
 //@ proof { assert(self.buffer.bytes().subrange(0, 0) =~= Seq::<u8>::empty()); }
